@@ -48,6 +48,9 @@ fn main() {
         std::process::exit(2);
     });
     let code = match id.as_str() {
+        "C01" => run_prop(holder::C01, tier, seed, replay),
+        "C02" => run_prop(holder::C02, tier, seed, replay),
+        "C03" => run_prop(c03::C03, tier, seed, replay),
         "C16" => run_prop(c16::C16, tier, seed, replay),
         _ => {
             eprintln!("unknown property {}", id);
